@@ -189,13 +189,24 @@ class Check:
             self.axioms.add(ax)
 
     def compile_chain(self, gen_files: list[str], lemma_files: list[str], prop_file: str,
-                      timeout=900) -> bool:
+                      timeout=900, stages=None) -> bool:
         """Compile generated files, lemma files and the property file; record obligations.
         Returns True iff everything checked.  On failure records self.broken."""
         self.copy_props([*lemma_files, prop_file])
         thms = self.theorem_names(os.path.join(self.build, prop_file))
         self.obligations.extend(thms)
-        for f in [*gen_files, *lemma_files, prop_file]:
+        if stages is not None:  # files of one stage only depend on earlier stages: compiled concurrently
+            from concurrent.futures import ThreadPoolExecutor
+            for stage in stages:
+                with ThreadPoolExecutor(max_workers=len(stage)) as ex:
+                    results = list(ex.map(lambda f: (f, *self.coqc(f, timeout=timeout)), stage))
+                for f, ok, out in results:
+                    if not ok:
+                        item = self.failing_item(os.path.join(self.build, f), out)
+                        self.broken.append({"file": f, "item": item, "coqc_output": out[-1500:]})
+                if self.broken:
+                    return False
+        for f in ([prop_file] if stages is not None else [*gen_files, *lemma_files, prop_file]):
             ok, out = self.coqc(f, timeout=timeout)
             if not ok:
                 item = self.failing_item(os.path.join(self.build, f), out)
